@@ -156,6 +156,59 @@ fn c18_round(ctx: &Ctx, out: &mut Out, rng: &mut Rng, k: u64) {
         })
         .collect();
     let results: Vec<ClientResult> = handles.into_iter().map(|h| h.join().unwrap()).collect();
+    // open-loop burst on a quiet server: one socket sends 80 requests back to back (more than one
+    // process_events call may answer when batch_size is 1), reads nothing meanwhile, then waits
+    let burst_missing = {
+        let mut brng = Rng::new(rng.next_u64());
+        let sock = UdpSocket::bind("127.0.0.1:0").unwrap();
+        crate::inproc::set_rcvbuf(std::os::unix::io::AsRawFd::as_raw_fd(&sock), 1 << 20);
+        let addr: SocketAddr = format!("127.0.0.1:{}", port).parse().unwrap();
+        let mut pending: Vec<(Vec<u8>, Vec<u8>, Proto)> = Vec::new();
+        // every other round the server is descheduled (SIGSTOP) while the burst arrives, so that
+        // the whole burst is queued before its next poll returns -- a schedule the kernel may
+        // produce on its own under CPU pressure
+        let frozen = k % 2 == 0;
+        if frozen {
+            sp.signal(libc::SIGSTOP);
+            std::thread::sleep(Duration::from_millis(5));
+            out.obs("burst_phases_with_server_frozen", 1);
+        }
+        for j in 0..80 {
+            let proto = if j % 2 == 0 { Proto::Classic } else { Proto::Ietf };
+            let nonce = brng.bytes(proto.nonce_len());
+            let pkt = match proto {
+                Proto::Classic => crate::refimpl::req::classic_request(&nonce, 1024),
+                Proto::Ietf => crate::refimpl::req::ietf_request(&[crate::refimpl::crypto::DRAFT13], None, &nonce, 1024),
+            };
+            let _ = sock.send_to(&pkt, addr);
+            pending.push((pkt, nonce, proto));
+        }
+        if frozen {
+            sp.signal(libc::SIGCONT);
+        }
+        sock.set_read_timeout(Some(Duration::from_millis(2500))).unwrap();
+        let mut buf = vec![0u8; 4096];
+        while !pending.is_empty() {
+            match sock.recv_from(&mut buf) {
+                Ok((n, _)) => {
+                    let hit = pending.iter().position(|(pkt, nonce, proto)| verify_response(&ReqView { proto: *proto, packet: pkt, nonce: nonce.clone() }, &buf[..n], &pk, Opts { strict: true }).is_ok());
+                    match hit {
+                        Some(i) => {
+                            pending.remove(i);
+                            out.obs("burst_replies_verified", 1);
+                        }
+                        None => {
+                            out.violation("C18 burst reply-invalid", "a reply to the open-loop burst verifies for none of its outstanding requests", json!({"kind":"load-round","round":k}));
+                            break;
+                        }
+                    }
+                }
+                Err(_) => break,
+            }
+        }
+        out.obs("burst_phases", 1);
+        pending.len()
+    };
     let drops1 = udp_drops(port).unwrap_or(0);
     let desc = json!({"kind":"load-round","round":k,"num_workers":nworkers,"clients":nclients,"requests_per_client":per_client,"pin":pin,"batch_size":cfg.batch_size,"source": if cfg.via_env {"ENV"} else {"file"}});
     // ---- offline check of the recorded history
@@ -188,6 +241,17 @@ fn c18_round(ctx: &Ctx, out: &mut Out, rng: &mut Rng, k: u64) {
         }
     }
     out.obs("replies_verified", verified as i64);
+    if burst_missing > 0 {
+        if drops1 != drops0 {
+            out.inconclusive("kernel drop counter moved");
+        } else {
+            out.violation(
+                &format!("C18 burst requests-unanswered batch_size={}", if cfg.batch_size == Some(1) { "1" } else { ">1" }),
+                &format!("{} of 80 requests sent back to back from one socket to a quiet server were not answered within 2.5 s of silence, and the kernel dropped nothing ({} workers, batch_size {:?})", burst_missing, nworkers, cfg.batch_size),
+                desc.clone(),
+            );
+        }
+    }
     if missing > 0 {
         if drops1 != drops0 {
             out.inconclusive("kernel drop counter moved");
